@@ -72,9 +72,31 @@ def name_queries(nl):
     return out
 
 
+def mutate_nested(v):
+    """in-place edit of a nested data value"""
+    if isinstance(v, list):
+        v.append("edited")
+        for x in v:
+            mutate_nested(x) if isinstance(x, (list, dict)) else None
+    elif isinstance(v, dict):
+        v["edited"] = True
+        for x in list(v.values()):
+            mutate_nested(x) if isinstance(x, (list, dict)) else None
+
+
 def edit(nl, rng):
     """a burst of edits / transformations on one netlist"""
     ops = 0
+    # in-place edits of nested user data on every kind of element (deep copies must not share them)
+    els = [nl] + [l for l in nl._libraries] + [d for l in nl._libraries for d in l._definitions]
+    for d in [d for l in nl._libraries for d in l._definitions]:
+        els += list(d._ports) + list(d._cables) + list(d._children)
+    if nl._top_instance is not None:
+        els.append(nl._top_instance)
+    for e in els:
+        for k, v in list(e._data.items()):
+            if isinstance(v, (list, dict)):
+                mutate_nested(v)
     for lib in list(nl._libraries):
         for d in list(lib._definitions):
             r = rng.random()
